@@ -104,6 +104,20 @@ fn check_build(input: &ARecord, case: &mut Case) -> Result<(), Fail> {
     lib("write_compressed_to", || pk.write_compressed_to(&mut w))?.map_err(|e| Fail::new("c10:build-failed", format!("{:?}", e)))?;
     let wc = walk(w.inner.get_ref()).map_err(|e| Fail::new(format!("c10:build-framing:{}", mnemonic(code)), format!("compressed output through a short-write writer does not walk: {:?}", e)))?;
     ensure!(wc.records.len() == 1 && wc.end == w.inner.get_ref().len(), format!("c10:build-framing:{}", mnemonic(code)), "compressed output through a short-write writer is mis-framed");
+    // the compressing entry point keeps the layout: embedded names of types whose RFC forbids compression stay
+    // in full, and the reference decoder reads the same field values back
+    let cbytes = w.inner.get_ref();
+    if let Err(f) = super::c07::check_pointers(cbytes, &mut Case::default()) {
+        if f.sig == "c07:compressed-forbidden" {
+            return Err(Fail::new(format!("c10:build-compressed-layout:{}", mnemonic(code)), format!("{} in {}", f.msg, hex(cbytes))));
+        }
+    }
+    match decode_message(cbytes) {
+        Ok((back, _)) => {
+            ensure!(back == p, format!("c10:build-compressed-values:{}", mnemonic(code)), "the compressed output {} decodes differently: {}", hex(cbytes), diff(&back, &p));
+        }
+        Err(e) => return Err(Fail::new(format!("c10:build-compressed-values:{}", mnemonic(code)), format!("the reference decoder rejects the compressed output {}: {:?}", hex(cbytes), e))),
+    }
     Ok(())
 }
 
